@@ -684,12 +684,11 @@ func main() {
 
 	rep.Discover = os.Getenv("VERIF_DISCOVER") != ""
 
+	// both tiers run histories of length <= 3; the thorough tier has the larger
+	// alphabet (three names, all 48 flag sets)
 	d := *depth
 	if d == 0 {
-		d = 2
-		if *tier == "thorough" {
-			d = 3
-		}
+		d = 3
 	}
 
 	budget := 150
